@@ -118,8 +118,8 @@ def buildHeaders (attrs : Attr → PyVal) : List (Attr × Nat × Bool) → Excep
         | .error x => .error x
         | .ok hs => .ok ((.int .plain code, v) :: hs)
 
-/-- `marshal.pad['header'](len(binHeader))` -/
-def headerPadding (n : Nat) : Bytes := zeros (padLen 8 n)
+/-- `marshal.pad['header'](len(binHeader))` (the alignment that entry of `pad` implements comes from the tables) -/
+def headerPadding (T : Tables) (n : Nat) : Bytes := zeros (padLen T.headerAlign n)
 
 /-- What a constructor has assigned before it calls `self._marshal(oobFDs=…)`. -/
 structure Pre (β : Type) where
@@ -170,7 +170,7 @@ def finishMarshal {β : Type} (T : Tables) (maxLen : Nat) (st : St) (p : Pre β)
             (.int .plain (binBody.length : Nat)) (.int .plain (serial : Nat)) headers with
     | .error x => (st', .error x)
     | .ok binHeader =>
-      let pad := headerPadding binHeader.length
+      let pad := headerPadding T binHeader.length
       if (binHeader ++ pad ++ binBody).length > maxLen then (st', .error .marshalling)
       else (st', .ok { cls := p.cls, expectReply := p.expectReply, autoStart := p.autoStart, attrs := attrs,
                        body := p.body, serial := serial, rawHeader := binHeader, rawPadding := pad,
@@ -201,7 +201,7 @@ def remarshal {β : Type} (T : Tables) (maxLen : Nat) (m : Msg β) (endian : Nat
             (.int .plain (rawBody.length : Nat)) (.int .plain (m.serial : Nat)) headers with
     | .error x => .error x
     | .ok binHeader =>
-      let pad := headerPadding binHeader.length
+      let pad := headerPadding T binHeader.length
       if (binHeader ++ pad ++ rawBody).length > maxLen then .error .marshalling
       else .ok { m with rawHeader := binHeader, rawPadding := pad, rawBody := rawBody }
 
